@@ -66,6 +66,7 @@ static void part_cells() {
     for (int n : ns) for (int k : {1, 2}) for (auto lb : lbs) for (auto tb : tbs) {
         Cell c{n, k, lb.l, lb.Bgbit, tb.t, tb.bb}; idx++; total++;
         bool dflt = lb.l == 2 && lb.Bgbit == 10 && tb.t == 8 && tb.bb == 2;
+        if (opt("cells") == "small" && !((n == 1 || n == 7 || n == 9) && ((dflt) || (k == 1 && lb.l == 3 && tb.t == 1) || (k == 1 && lb.l == 1 && tb.t == 15)))) continue; // reduced matrix for the memcheck pass
         if (quick() && !(dflt || (k == 1 && n <= 9 && ((lb.l == 2 && lb.Bgbit == 10) || (tb.t == 8 && tb.bb == 2))) || (n == 1025 && k == 2 && lb.l == 3 && tb.t == 8))) continue;
         double mb = key_mb(c); if (mb > (quick() ? 64 : 300)) { excluded++; info(fmt("excluded/n=%d,k=%d,l=%d,t=%d,bb=%d", n, k, lb.l, tb.t, tb.bb), fmt("%.0f MB of key material", mb)); continue; }
         std::string key = fmt("cell/n=%d/k=%d/l=%d/Bgbit=%d/t=%d/bb=%d", n, k, lb.l, lb.Bgbit, tb.t, tb.bb);
